@@ -271,6 +271,13 @@ func c13Server(r *ev.Run) {
 				off := bytes.Index(rq.data, rq.p.E2E[0].OptData[:12])
 				rq.data[off+6+rng.IntN(6)] ^= 1 << uint(rng.IntN(8)) // bytes 6..11: timestamp / sequence number (byte 5 is reserved and not covered)
 				mutation = "authenticator timestamp/sequence changed"
+			case 6: // the time service's SPI and algorithm, but the option is cut short: it cannot verify
+				nb := 5 + rng.IntN(23)
+				rq.p.E2E[0].OptData = append([]byte{}, rq.p.E2E[0].OptData[:nb]...)
+				if b, err := rq.p.Serialize(); err == nil {
+					rq.data = b
+					mutation = "authenticator option cut short (time-service SPI and algorithm kept)"
+				}
 			case 5: // flow id
 				rq.data[3] ^= 1 << uint(rng.IntN(8))
 				mutation = "flow id changed"
@@ -695,9 +702,18 @@ func c13ClientWith(r *ev.Run, cfg c13ClientCfg) {
 		}
 		mode = modes[i%len(modes)]
 		p.mu.Lock()
-		p.script = []c05Mut{{name: "scion-auth:" + mode}}
-		p.sent = make([]bool, 1)
-		p.sentBytes = make([][]byte, 1)
+		// every third call the crafted datagram arrives twice in a row: the second one meets a client that
+		// has used up its one retry
+		nscript := 1
+		if (i/len(modes))%3 == 2 {
+			nscript = 2
+		}
+		p.script = nil
+		for k := 0; k < nscript; k++ {
+			p.script = append(p.script, c05Mut{name: "scion-auth:" + mode})
+		}
+		p.sent = make([]bool, nscript)
+		p.sentBytes = make([][]byte, nscript)
 		p.mu.Unlock()
 		h.take()
 		ctx, cancel := context.WithTimeout(context.Background(), time.Second)
@@ -727,14 +743,17 @@ func c13ClientWith(r *ev.Run, cfg c13ClientCfg) {
 			continue
 		}
 		_ = ts
-		k, ok := c05Identify(off, 1)
+		k, ok := c05Identify(off, nscript)
 		bad := mode == "bad-mac" || mode == "wrong-key" || mode == "payload-changed" || strings.HasPrefix(mode, "key:") || mode == "forged-payload-genuine-datagram-appended"
 		switch {
 		case !ok:
 			r.Violation("scion-client|wrong-value:reported offset corresponds to none of the datagrams sent", id, w)
-		case k == 0 && bad:
+		case k >= 0 && k < nscript && bad:
+			if nscript > 1 {
+				w["crafted_datagrams_in_a_row"] = nscript
+			}
 			r.Violation("scion-client|wrong-value:response with the server's authenticator SPI whose MAC does not verify was accepted|"+mode, id, w)
-		case k == 0:
+		case k >= 0 && k < nscript:
 			r.Class("client:accepted:" + mode)
 			if mode == "good" || true {
 				// which record logged the acceptance?
